@@ -48,8 +48,23 @@ func Replay(path string) int {
 		if f, ok := customReplay[v.Check]; ok {
 			return f(v)
 		}
-		fmt.Printf("no replayer for check %q\n", v.Check)
-		return 2
+		// generic replay: the check's space is small and deterministic - re-explore it and
+		// look for the same signature
+		fmt.Printf("recorded violation: property=%s sig=%s\n  what: %s\n  config: %s\n  history: %v\n  detail: %s\n", v.Property, v.Sig, v.What, v.Config, v.History, v.Detail)
+		fn, ok := GenericChecks[v.Property]
+		if !ok {
+			fmt.Printf("no replayer for check %q\n", v.Check)
+			return 2
+		}
+		fmt.Printf("re-exploring %s (quick tier) to look for this signature ...\n", v.Property)
+		run := report.NewRun(v.Property, "model_checking")
+		fn(run)
+		if got, ok := run.Sigs()[v.Sig]; ok {
+			fmt.Printf("REPRODUCED property=%s sig=%s (%d occurrences)\n  history: %v\n  detail: %s\n", v.Property, v.Sig, got.Count, got.History, got.Detail)
+			return 1
+		}
+		fmt.Println("not reproduced")
+		return 0
 	}
 	pl, _ := json.Marshal(v.Replay)
 	var payload struct {
@@ -105,3 +120,6 @@ func Replay(path string) int {
 }
 
 var customReplay = map[string]func(report.Violation) int{}
+
+// GenericChecks maps a property to its check function (filled by the command).
+var GenericChecks = map[string]func(*report.Run){}
